@@ -29,6 +29,11 @@ class _Unknown:
 UNKNOWN = _Unknown()
 
 
+class _Return(Exception):
+    def __init__(self, value):
+        self.value = value
+
+
 def unk(why):
     return _Unknown(why)
 
@@ -144,7 +149,10 @@ class Folder:
         env: Dict[str, Any] = {}
         self._envs[modname] = env
         unit = self.p.units[modname]
-        self._exec_block(unit.tree.body, env, modname, toplevel=True)
+        try:
+            self._exec_block(unit.tree.body, env, modname, toplevel=True)
+        except _Return:
+            pass
         self._in_progress.discard(modname)
         return env
 
@@ -223,6 +231,19 @@ class Folder:
                 for n in ast.walk(s):
                     if isinstance(n, ast.Name) and isinstance(n.ctx, ast.Store):
                         env[n.id] = unk("assigned under unknown test")
+        elif isinstance(s, ast.For) and not s.orelse:
+            it = self.eval(s.iter, modname, env)
+            items = None if is_unknown(it) else self._iterate(it)
+            if items is not None and len(items) <= 2000 and not any(isinstance(x, (ast.Break, ast.Continue, ast.While, ast.Try)) for b in s.body for x in ast.walk(b)):
+                for item in items:
+                    self._assign(s.target, item, env, modname)
+                    self._exec_block(s.body, env, modname, toplevel)
+            else:
+                for n in ast.walk(s):
+                    if isinstance(n, ast.Name) and isinstance(n.ctx, ast.Store):
+                        env[n.id] = unk("assigned in loop")
+        elif isinstance(s, ast.Return):
+            raise _Return(self.eval(s.value, modname, env) if s.value is not None else None)
         elif isinstance(s, (ast.For, ast.While, ast.With)):
             for n in ast.walk(s):
                 if isinstance(n, ast.Name) and isinstance(n.ctx, ast.Store):
@@ -683,6 +704,29 @@ class Folder:
             if n == "len" and len(args) == 1 and isinstance(a0, (list, tuple, dict, set, str)):
                 return len(a0)
             return ExtCall(n, tuple(a if hashable(a) else repr(a) for a in args))
+        if isinstance(f, FuncRef) and f.qual in self.p.functions and getattr(self, "_call_depth", 0) < 3:
+            fi = self.p.functions[f.qual]
+            node = fi.node
+            if isinstance(node, ast.FunctionDef) and not fi.cls and len(node.body) <= 12 and not any(is_unknown(a) for a in args):
+                names = [a.arg for a in node.args.args]
+                if len(args) <= len(names) and not node.args.vararg and not node.args.kwarg:
+                    local = dict(zip(names, args))
+                    local.update({k: v for k, v in kwargs.items() if k in names})
+                    defaults = node.args.defaults
+                    for nme, dflt in zip(names[len(names) - len(defaults):], defaults):
+                        if nme not in local:
+                            local[nme] = self.eval(dflt, fi.module, {})
+                    if all(n in local for n in names):
+                        self._call_depth = getattr(self, "_call_depth", 0) + 1
+                        try:
+                            self._exec_block(node.body, local, fi.module)
+                            return None
+                        except _Return as r:
+                            return r.value
+                        except AnalysisError:
+                            return unk("call %s failed" % f.qual)
+                        finally:
+                            self._call_depth -= 1
         if is_unknown(f):
             return f
         return unk("call of %r" % (f,))
